@@ -91,7 +91,10 @@ def has_ml_scores(mm):
         # this ML score. But this use case is basically non-existent and
         # the performance impact is probably negligible.
         candidates = AncillaryFeature.get_instances(feat)
-        idlist.append((feat, [c.hash(mm) for c in candidates]))
+        # The score data itself must be part of the identifier as well,
+        # because the scores may be replaced (temporary features).
+        idlist.append((feat, [c.hash(mm) for c in candidates],
+                       np.asarray(mm[feat])))
     return idlist
 
 
